@@ -29,8 +29,11 @@ def gen_ctx(r):
         sid = bytes(r.getrandbits(8) for _ in range(r.choice([0, 1, 1, 2, 7])))
         if cid != sid:
             break
-    idctx = bytes(r.getrandbits(8) for _ in range(r.choice([1, 4, 8]))) \
-        if r.random() < 0.35 else None
+    # (lengths on both sides of the CBOR one-byte-length boundary of the HKDF info; the
+    # library's info buffer takes an ID Context of up to ~60 bytes)
+    idctx = bytes(r.getrandbits(8) for _ in range(r.choice([1, 4, 8, 8, 16, 23, 24, 25, 32, 48,
+                                                            56, 64, 100]))) \
+        if r.random() < 0.4 else None
     start = r.choice([0, 0, 1, 20, 255, 256, 65535, 65536, 2 ** 24 - 1, 2 ** 32, 2 ** 32 + 5,
                       2 ** 40 - 10])
     return {"secret": secret, "salt": salt, "client_id": cid, "server_id": sid, "idctx": idctx,
@@ -107,10 +110,29 @@ def setup(exe, r, c, b12=False, rsp=None, block_mode=None):
         sim.cmd("res 1 %s code=%d body=fixed:%s%s" % (name.hex(), rsp["code"],
                                                       rsp["payload"].hex() or "-",
                                                       " ropts=" + ro if ro else ""))
-    sim.cmd("sess 0 0 udp %s oscore=%s start_seq=%d" % (
+    evs = sim.cmd("sess 0 0 udp %s oscore=%s start_seq=%d" % (
         SERVER, conf_text(c["secret"], c["salt"], c["client_id"], c["server_id"], c["idctx"],
                           b12), c["start"]))
+    if not info_fits(c) and any(e["e"] == "sess" and not e.get("ok") for e in evs):
+        e = ContextRefused()
+        e.w = w
+        raise e
     return w, sim
+
+
+class ContextRefused(Exception):
+    """the library declined to set up this security context (coap_new_client_session_oscore()
+    returned NULL): nothing is produced under it, nothing to compare"""
+
+
+def info_fits(c):
+    """RFC 8613 3.2.1 info array for the longest id within the library's 80-byte buffer: a
+    context beyond that is one libcoap cannot derive keys for and may refuse"""
+    def h(n):
+        return 1 if n < 24 else 2
+    L = len(c["idctx"] or b"")
+    worst = max(len(c["client_id"]), len(c["server_id"]))
+    return 1 + h(worst) + worst + h(L) + L + 1 + 1 + 3 + 1 <= 80
 
 
 def ref_ctx(c, client):
@@ -398,7 +420,7 @@ def work(job):
             sim.cmd(send_line(req))
             sim.run(horizon=20000)
             D = check_exchange(run, sim, c, req, rsp, witness, stats)
-            sigs.add((len(c["client_id"]), len(c["server_id"]), c["idctx"] is not None,
+            sigs.add((len(c["client_id"]), len(c["server_id"]), len(c["idctx"] or b""),
                       bool(c["salt"]), c["start"].bit_length() // 8, req["code"],
                       tuple(sorted(set(nn for nn, _ in req["options"]))), len(req["payload"]) > 0))
             world.teardown_check(run, "C14", w, witness)
@@ -455,6 +477,11 @@ def work(job):
                                       "accepted" % len(variants))
                 finally:
                     w2.close()
+        except ContextRefused as cr:
+            stats["context_refused_id_context_too_long"] = \
+                stats.get("context_refused_id_context_too_long", 0) + 1
+            # refusing has to be clean as well: nothing leaked, nothing freed twice
+            world.teardown_check(run, "C14", cr.w, witness)
         except world.WorldCrash as e:
             world.crash_violation(run, "C14", e, witness)
         except common.Inconclusive:
